@@ -346,6 +346,19 @@ def check_roundtrip(ck, lib, c, gm, s, steps):
            tuple(back.contact.geom[k]) == tuple(md.contact.geom[i])]
       if not j or not any(back.contact.efc_address[k] >= 0 and bits_equal(Jb[back.contact.efc_address[k]], Ja[adr]) for k in j):
         raise Violation('contact %d: efc_address after round trip does not point at its constraint row' % i, bucket='B-efc-address')
+  # mjx.Data must not alias the MjData it was made from: mutate the source (step it, overwrite inputs) and re-read dx
+  snap = leaves(jax, dx)
+  md.xfrc_applied[...] += 0.25
+  md.qfrc_applied[...] -= 0.5
+  if mm.nu:
+    md.ctrl[...] += 0.125
+  for _ in range(3):
+    mujoco.mj_step(mm, md)
+  now = leaves(jax, dx)
+  for k in snap:
+    if not np.array_equal(snap[k], now[k], equal_nan=True):
+      raise Violation('put_data(m, d).%s changed after the source MjData was stepped/modified (mjx.Data aliases the MjData buffer)\n before=%s\n after =%s' % (
+          k, np.array2string(snap[k].ravel()[:8], precision=10), np.array2string(now[k].ravel()[:8], precision=10)), bucket='B-alias')
   nt = md.ncon >= 1 and md.nefc >= 1
   ck.case(nontrivial=nt, key=('B', gm.xml, int(s['qpos'].view(np.uint64).sum() % (1 << 40)), steps),
           sample=dict(oracle='B put_data/get_data', xml=gm.xml, ncon=int(md.ncon), nefc=int(md.nefc), fields_compared=compared,
